@@ -31,12 +31,12 @@ def pad_callback(mode, log):
 
 
 class Step:
-    __slots__ = ("op", "arg", "before", "after", "exc", "cb", "mem", "exp_indep", "v2", "v1", "obj_tags_after", "wbefore", "wafter", "walk_err")
+    __slots__ = ("op", "arg", "before", "after", "exc", "cb", "mem", "exp_indep", "v2", "v1", "obj_tags_after", "wbefore", "wafter", "walk_err", "v23conv")
 
     def __init__(self, op, arg, before):
         self.op, self.arg, self.before = op, arg, before
         self.after = before; self.exc = None; self.cb = []; self.mem = None; self.exp_indep = None
-        self.v2 = 4; self.v1 = 1; self.obj_tags_after = None; self.wbefore = None; self.wafter = None; self.walk_err = None
+        self.v2 = 4; self.v1 = 1; self.obj_tags_after = None; self.wbefore = None; self.wafter = None; self.walk_err = None; self.v23conv = False
 
     def brief(self):
         return "%s(%s)" % (self.op, self.arg) if self.arg is not None else self.op
@@ -76,10 +76,12 @@ class Runner:
         self.kind, self.cur, self.rng = kind, data, rng
         self.obj = None
         self.id3_opts = id3_opts
+        self.v23shape = False
         self.steps = []
 
     def _open(self):
         self.obj = self.kind.open(io.BytesIO(self.cur))
+        self.v23shape = False
 
     def apply(self, op, arg):
         k = self.kind
@@ -98,10 +100,17 @@ class Runner:
                 kw = save_kwargs(k, self.rng, mode, st.cb)
                 if k.style == "id3" and self.id3_opts:
                     st.v2 = self.rng.choice([4, 4, 3])
+                    if self.v23shape:
+                        st.v2 = 3       # frames converted by update_to_v23 belong in a v2.3 tag
                     kw["v2_version"] = st.v2
                     if k.family == "id3":
                         st.v1 = self.rng.choice([0, 1, 2])
                         kw["v1"] = st.v1
+                    if st.v2 == 3 and k.tags_of(o) is not None and self.rng.random() < 0.6:
+                        # the documented way of writing v2.3: convert the frames first
+                        k.tags_of(o).update_to_v23()
+                        st.v23conv = True
+                        self.v23shape = True
                 if k.name == "FLAC" and self.cur[:3] == b"ID3" and self.rng.random() < 0.5:
                     kw["deleteid3"] = True
                     st.v1 = "deleteid3"
